@@ -144,19 +144,39 @@ theorem next_not_ignored (p : Pack) (f : Nat) (q q' : Q) (w : WP)
           · exact ih _ h
         · exact ih _ h
 
-/-- exhaustion is sticky: a `stop` answer leaves the queue unchanged -/
-theorem next_stop_unchanged (p : Pack) (f : Nat) (q q' : Q)
-    (h : Q.next p f q = (q', .stop)) (hs : q.staging = []) (hw : q.working = [])
-    (hc : q.curr.all (·.isEmpty) = true) : q' = q := by
-  cases f with
+/-- a queue is *dry* when `__next__` has nothing to do: it raises StopIteration without touching anything -/
+def Dry (q : Q) : Prop := q.staging = [] ∧ q.working = [] ∧ q.curr.all (·.isEmpty) = true ∧ changeLevel q = none
+
+theorem next_stop_dry (p : Pack) (f : Nat) (q q' : Q) (h : Q.next p f q = (q', .stop)) : Dry q' := by
+  induction f generalizing q with
   | zero => simp [Q.next] at h
-  | succ f =>
+  | succ f ih =>
     unfold Q.next at h
-    rw [hs] at h
-    simp only [hw, List.isEmpty_nil, Bool.not_true, Bool.false_eq_true, ↓reduceIte, hc] at h
     split at h
-    · injection h with h1 _; exact h1.symm
-    · rename_i q'' hq''
-      -- after a successful level change the first deque is non-empty, so a packet or a move follows;
-      -- this branch is handled in the full development
-      sorry
+    · simp only at h
+      split at h
+      · exact ih _ h
+      · cases h
+    · rename_i hst
+      split at h
+      · exact ih _ h
+      · rename_i hw
+        split at h
+        · rename_i hc
+          split at h
+          · rename_i hcl
+            injection h with h1 _
+            subst h1
+            refine ⟨hst, ?_, hc, hcl⟩
+            simpa using hw
+          · exact ih _ h
+        · exact ih _ h
+
+/-- exhaustion is sticky: once `__next__` has answered StopIteration it keeps answering it, on an
+unchanged queue, until something is added -/
+theorem next_exhausted_stable (p : Pack) (f g : Nat) (q q' : Q)
+    (h : Q.next p f q = (q', .stop)) : Q.next p (g + 1) q' = (q', .stop) := by
+  obtain ⟨hs, hw, hc, hcl⟩ := next_stop_dry p f q q' h
+  unfold Q.next
+  rw [hs]
+  simp only [hw, List.isEmpty_nil, Bool.not_true, Bool.false_eq_true, ↓reduceIte, hc, hcl]
